@@ -255,6 +255,7 @@ func (r *realm) setupMetaProcedures() {
 	r.registerMetaProcedure(wamp.MetaProcSubGet, r.broker.subGet)
 	r.registerMetaProcedure(wamp.MetaProcSubListSubscribers, r.broker.subListSubscribers)
 	r.registerMetaProcedure(wamp.MetaProcSubCountSubscribers, r.broker.subCountSubscribers)
+	r.registerMetaProcedure(wamp.MetaProcSubCountSubscribersLegacy, r.broker.subCountSubscribers)
 	r.registerMetaProcedure(wamp.MetaProcEventHistory, r.broker.subEventHistory)
 
 	// Register to handle testament meta procedures.
